@@ -40,6 +40,37 @@ CLAIMS = {
          'superseded_double_cleared, passed_out_iff_no_bid, passed_out_shape, flags_follow_status. Every reachable state.',
          'Trusted: as C01; the contract is compared through doubling STATUS, level/denomination, vulnerability and declarer.',
          'Lean 4 proof (refinement invariant) + differential correspondence'),
+ 'C04': ('Lean 4 theorems about the model of PlayingPhase: calc_highest_spec (the loop returns the first maximal card of the suit, -1 iff none/NT), '
+         'trick_winner_is_law + winner_unique (the position chosen by _set_next_leader is THE winner by the Law: highest trump, else highest of '
+         'the suit led), opening_lead_and_dummy, turn_passes_clockwise, winner_leads_next, one_trick_credited_to_winners_side, '
+         'incomplete_trick_step, history_is_tricksOf (history = the played cards cut in fours with their actual leaders; counts = tricks won), '
+         'after_52_cards, has_done_iff_52, passed_out_not_playable — for every contract with a declarer and every list of cards played, '
+         'by induction over the play list. Correspondence: every public field after every card on random boards.',
+         'Trusted: Lean kernel (propext, Classical.choice, Quot.sound); the Law as stated in Spec/Play.lean (WinsTrick); model faithfulness '
+         'outside the sampled boards; the cards of the incomplete trick are private in the implementation and are reconstructed by the harness.',
+         'Lean 4 proof (invariants by induction over the play list) + differential correspondence'),
+ 'C05': ('Lean 4 theorems about the models of PlayingPhaseWithHands and ObservedPlayingPhase: refused_out_of_turn, refused_not_held, accepted_iff, '
+         'accepted_effect, refusal_changes_nothing, conservation (for every deal and every offered sequence, legal or not, remaining hands ++ played '
+         'cards is a permutation of the deal), no_card_twice, after_52_all_empty, observed_* variants. Unbounded sequences, induction.',
+         'Trusted: as C04; hands are modelled as duplicate-free lists compared as sets.',
+         'Lean 4 proof (conservation invariant via List.Perm) + fault-injecting differential correspondence'),
+ 'C06': ('Lean 4 theorems: available_spec (available_cards = follow-suit rule), available_subset, available_nonempty, available_follows, '
+         'current_available_uses_first_card, random_play_in_available (for every choice function returning an element of its argument). '
+         'Correspondence on hands of every size x every led card and at every state of play-throughs; RandomPlay with random.choice recorded.',
+         'Trusted: as C04; random.choice returns an element of its argument.',
+         'Lean 4 proof + differential correspondence'),
+ 'C14': ('Lean 4 theorems for every (partial) deal: pbn_round_trip (to_pbn from any first seat, then the regex scanner of convert_pbn, gives back the '
+         'same hands), pbn_canonical (S.H.D.C order, ranks high to low, void = empty field, unknown hand = "-", 16 characters), binary_round_trip, '
+         'np_binary_round_trip, json_round_trip, json_cards_ascending, random_deal_is_partition (for EVERY permutation produced by shuffle), '
+         'fresh_pack_is_the_deck. Correspondence incl. malformed and backtracking-inducing PBN strings.',
+         'Trusted: Lean kernel (3 standard axioms); the hand-written backtracking scanner standing for re.match on DEAL_PATTERN/HAND_PATTERN '
+         '(differential-tested); numpy vector semantics; random.shuffle returns a permutation.',
+         'Lean 4 proof (string-level round trip through the scanner model) + differential correspondence'),
+ 'C15': ('Lean 4 theorems by kernel evaluation over the COMPLETE finite domains: round trips and injectivity of every notation of the 52 cards, 38 calls, '
+         '4 seats, 4 vulnerabilities (3 spellings + synonyms), 5 suits; card order = index order on all 52x52 pairs; contract text round trip on '
+         '35 bids x 4 flag combinations x 4 vul x 5 declarers + passed out. Correspondence EXHAUSTIVE on the same domains plus adversarial strings.',
+         'Trusted: Lean kernel (propext only for most); exhaustive correspondence on the value domains; parsers compared on stated finite ASCII string sets.',
+         'Lean 4 proof (decide over complete finite domains) + exhaustive correspondence'),
 }
 PENDING = 'check not built yet in this session (work in progress, see DESIGN.md section 9); will be claimed when its theorems and correspondence run'
 
